@@ -722,6 +722,13 @@ package modules
 //@   ensures old(t.canceled) || old(isSet(t.module.stopFlag)) ==> !ok
 // a refused task is left as it is, and no list is touched
 //@   ensures !ok ==> t.queueElement == old(t.queueElement) && t.prioritizedQueueElement == old(t.prioritizedQueueElement) && lsInserts == old(lsInserts) && lsFrontElem == old(lsFrontElem)
+// every accepted submission of a task with a maximum delay renews its deadline in the schedule (a
+// task that came due keeps waiting in the queue until that deadline; without the renewal the
+// schedule handler would start it at once, next to the task that is running)
+//@   ghost var renewed bool = false
+//@   at optional call (*Task).addToSchedule ghost renewed = true
+//@   at optional call (*Task).addToSchedule assert arg1
+//@   ensures ok && t.maxDelay != 0 ==> renewed
 
 // a task is entered into a queue only if it is active, and at most once per queue: an active
 // task that is not yet waiting is placed at the back of its queue (exactly one insertion, its
